@@ -17,9 +17,16 @@ WORK = os.path.join(ROOT, "work")
 TARGET = os.path.join(CACHE, "target")
 DRIVER_DIR = os.path.join(ROOT, "harness", "driver")
 DRIVER = os.path.join(CACHE, "driver-active")      # copy of the binary built by the last build_driver()
+if os.environ.get("VERIF_REPO"):
+    _tag = hashlib.sha256(os.environ["VERIF_REPO"].encode()).hexdigest()[:10]
+    TARGET = os.environ.get("VERIF_TARGET", os.path.join(CACHE, "target-" + _tag))
+    DRIVER = os.path.join(CACHE, "driver-active-" + _tag)
 REPLAYS = os.path.join(ROOT, "replays")
 EVIDENCE = os.path.join(ROOT, "evidence")
-REPO = "/repo"
+# The repository under test. Registered commands always use /repo; VERIF_REPO lets a seeded change be run from a scratch
+# worktree (tools/seed_wave_par.sh) without touching /repo: the driver crate is then copied with its path dependency
+# rewritten and built into a target directory of its own.
+REPO = os.environ.get("VERIF_REPO", "/repo").rstrip("/")
 GUARD = "--cfg wgsl_to_wgpu_verif"
 
 ALLOWED_AXIOMS = set()   # no axiom is expected under any property theorem
@@ -213,6 +220,14 @@ def build_driver():
     """Build the driver against /repo's working tree with the hooks on. If the tree only fails to build WITH the guard
     (a change broke a guarded hook call), fall back to a build without the guard: every check that does not need the
     counters still runs; C20 then reports the missing counters as a broken correspondence."""
+    global DRIVER_DIR
+    if REPO != "/repo":
+        alt = os.path.join(CACHE, "driver-src-" + os.path.basename(TARGET))
+        sh(["rm", "-rf", alt])
+        shutil.copytree(os.path.join(ROOT, "harness", "driver"), alt, ignore=shutil.ignore_patterns("target"))
+        ct = open(os.path.join(alt, "Cargo.toml")).read().replace('"/repo/wgsl_to_wgpu"', '"%s/wgsl_to_wgpu"' % REPO)
+        open(os.path.join(alt, "Cargo.toml"), "w").write(ct)
+        DRIVER_DIR = alt
     env = {"CARGO_NET_OFFLINE": "true", "RUSTFLAGS": GUARD, "CARGO_TARGET_DIR": TARGET}
     rc, out = sh("cargo build --release --offline", cwd=DRIVER_DIR, env=env, timeout=3000)
     if rc == 0:
